@@ -7,6 +7,7 @@ import (
 	"encoding/hex"
 	"encoding/json"
 	"os"
+	"strconv"
 	"sync"
 )
 
@@ -38,7 +39,7 @@ func (c *Collector) Case(fingerprint []byte, nontrivial bool, labels []string, s
 	c.mu.Lock()
 	defer c.mu.Unlock()
 	c.Cases++
-	if c.Cases%250 == 0 {
+	if c.Cases%flushEvery() == 0 {
 		defer c.flushLocked()
 	}
 	for _, l := range labels {
@@ -115,4 +116,11 @@ func (c *Collector) flushLocked() {
 	if os.WriteFile(tmp, b, 0o644) == nil {
 		_ = os.Rename(tmp, dir+"/"+c.Test+".json")
 	}
+}
+
+func flushEvery() int {
+	if n, err := strconv.Atoi(os.Getenv("VERIF_FLUSH_EVERY")); err == nil && n > 0 {
+		return n
+	}
+	return 250
 }
